@@ -127,7 +127,9 @@ def frag : Stmt → Bool
   | .seq a b => frag a && frag b
   | .ite _ a => frag a
   | .itee _ a b => frag a && frag b
-  | _ => false
+  | .while_ _ b => frag b
+  | .dowhile b _ => frag b
+  | .for_ _ st b => frag st && frag b
 
 /-- Executions of at most `fuel` are simulated (see `Post`). -/
 def SimStmt (T : Stat) (fuel : Nat) : Prop :=
